@@ -57,10 +57,10 @@ def case_key(a, b, dirs, kind, N):
 
 
 def sequences(tier, rng):
-    cases = CASES if tier == "thorough" else rng.sample(CASES, 6)
+    cases = CASES          # every aspect ratio / laminate case in both tiers (the highest orders only occur in the elongated ones)
     out = []
     for (a, b, dirs, t) in cases:
-        loads = LOADS if tier == "thorough" else rng.sample(LOADS, 2)
+        loads = LOADS
         for kind, N in [("buckling", N) for N in loads] + [("freq", (0.0, 0.0, 0.0))]:
             model = rng.choice(["plate_w", "plate_w", "plate"]) if tier == "thorough" else "plate_w"
             out.append((a, b, dirs, t, kind, N, model))
